@@ -89,11 +89,36 @@ func c03LoadSpec(r *h.R, ps h.PointSpec, mode int) (*curve.EdwardsPoint, ref.Poi
 
 var c03AuxEnc = h.C03SpecPoint(h.PointSpec{A: h.Hex{0x39, 0x30}, J: 3}).Encode() // [12345]B + T[3]
 
+// c03NonCanon maps the canonical encoding of a point to its non-canonical
+// encodings (y >= p, or x = 0 with the sign bit set).  Only a few small-order
+// points have any; decoding one of them (documented as accepted) yields the
+// same point with an unreduced internal Y, one more representation that the
+// group operations must be independent of.
+var c03NonCanon = func() map[string][][]byte {
+	m := map[string][][]byte{}
+	for _, b := range h.AllNonCanonicalPointStrings() {
+		if di := ref.Decode(b); di.OK {
+			k := string(di.P.Encode())
+			m[k] = append(m[k], b)
+		}
+	}
+	return m
+}()
+
+// mode: bits 0-1 select the re-representation (c03Rerep), bit 2 asks for a
+// non-canonical encoding when the point has one, bits 3.. select which.
 func c03LoadRef(r *h.R, rp ref.Point, mode int) (*curve.EdwardsPoint, ref.Point, bool) {
 	enc := rp.Encode()
-	p, err := c03Load(enc)
+	loadEnc := enc
+	if mode&4 != 0 {
+		if al := c03NonCanon[string(enc)]; len(al) > 0 {
+			loadEnc = al[(mode>>3)%len(al)]
+			r.Class("operand:noncanonical-encoding").NT(true)
+		}
+	}
+	p, err := c03Load(loadEnc)
 	if err != nil {
-		r.Fail("EdwardsPoint.SetCompressedY:rejected-valid-point", "enc=%x err=%v", enc, err)
+		r.Fail("EdwardsPoint.SetCompressedY:rejected-valid-point", "enc=%x err=%v", loadEnc, err)
 		return nil, rp, false
 	}
 	if mode%4 != 0 {
@@ -158,8 +183,8 @@ func c03GenGL(t *rapid.T) c03GLCase {
 	for i := 0; i < n; i++ {
 		c.Extra = append(c.Extra, h.C03GenPoint(t, "e", true, false))
 	}
-	c.RepP = rapid.IntRange(0, 3).Draw(t, "repp")
-	c.RepQ = rapid.IntRange(0, 3).Draw(t, "repq")
+	c.RepP = rapid.IntRange(0, 31).Draw(t, "repp")
+	c.RepQ = rapid.IntRange(0, 31).Draw(t, "repq")
 	return c
 }
 
@@ -262,7 +287,7 @@ type c03MulCase struct {
 func c03GenMul(t *rapid.T) c03MulCase {
 	var c c03MulCase
 	c.P = h.C03GenPoint(t, "p", false, false)
-	c.RepP = rapid.IntRange(0, 3).Draw(t, "rep")
+	c.RepP = rapid.IntRange(0, 31).Draw(t, "rep")
 	c.S, c.SC = h.C03GenScalar(t, "s")
 	c.S2, c.S2C = h.C03GenScalar(t, "s2")
 	c.Direct = rapid.IntRange(0, 7).Draw(t, "direct") == 0
